@@ -17,6 +17,7 @@ CONSTANTS
   HasFallback = TRUE
   AllowClose = FALSE
   AllowDo = TRUE
+  AllowIndicate = TRUE
   IdleCollects = 1
   RtoChanges = 2
   DeadlineTicks = FALSE
@@ -31,6 +32,7 @@ INVARIANT RoutedByID
 INVARIANT ConnOwnership
 INVARIANT GoroutinesGone
 INVARIANT DoNotStuck
+INVARIANT IndicationsAreNotTransactions
 PROPERTY ClosedStartsRefused
 PROPERTY RtoSnapshot
 ACTION_CONSTRAINT PrintEdge
